@@ -29,7 +29,7 @@ ASSUMPTIONS = ["priority keys pairwise distinct (else the call is inconclusive)"
 PROFILE = world.profile(reconfig=0.3, constraints={"three": 6, "single": 1}, binding=(0.15, 0.8), evse_kinds={"cont": 3, "finite": 3},
                         party={"greedy": 4, "rr": 2, "uncontrolled": 1}, estimator={"none": 1}, uninterrupted=0.35,
                         hot=0.1, b2b=0.2, stations=(3, 8), demand=(0.05, 1.6), heterovolt=0.9, rr_inc=[0.5, 1, 3],
-                        horizon=(4, 20), noise=0.1, chain_fill=(0.5, 1.0))
+                        horizon=(4, 20), noise=0.1, chain_fill=(0.5, 1.0), sorted_max_recompute=[1, 1, 1, 1, 2, 3, None])
 EPS = [1e-7, 1e-6, 1e-4, 1e-3, 0.01, 0.1, 1]
 
 
